@@ -22,6 +22,7 @@ type verifReplayState struct {
 	Params  map[string]int `json:"params"`
 	pos    int
 	Fails  []string
+	Logs   []string
 	Covers []string
 }
 
@@ -126,6 +127,14 @@ func verifIsNil(x interface{}) bool {
 	}
 	return false
 }
+
+// verifLog records a line that the replay driver prints with the outcome
+// (ignored by the symbolic engine).
+func verifLog(s string) { verifRS.Logs = append(verifRS.Logs, s) }
+
+// verifOnce runs a concrete prologue; the engine shares its result between
+// paths (natively it simply runs).
+func verifOnce(key string, f func() string) string { return f() }
 
 func verifCover(tag string) { verifRS.Covers = append(verifRS.Covers, tag) }
 
